@@ -146,7 +146,7 @@ fn degenerate_case(st: &mut Stats, rng: &mut Rng) {
 }
 
 pub fn run(ctx: &Ctx) -> Report {
-    let units = ctx.vol(8000, 200_000);
+    let units = ctx.vol(30_000, 1_200_000);
     let stats = par_run(ctx, TAG, units, |_u, rng, st| { for _ in 0..3 { convergence_case(st, rng); } degenerate_case(st, rng); degenerate_case(st, rng); });
     let mut rep = Report::new(stats,
         "certified well-posed systems of order 1..60: symmetric strictly diagonally dominant with positive diagonal (SPD; all five variants) and strictly row-dominant nonsymmetric with mixed-sign diagonal (BiCG both error measures, BiCGSTAB, QMR), dominance margins {0.02,0.1,0.5,2}, global scales 1e+-3, rhs from a planted solution of scale 1, 1e3, 1e+-8, 1e-18, 1e+-30, 1e+-60, x0 zero/random/scaled, tol log-uniform 1e-12..1e-3 (QMR demanded for tol>=1e-8 only), budget 10n+100, shuffled triplets. Judged: Ok within the budget, finite x, agreement with Matrix::solve_basic within kappa_F*(tol+drift). Degenerate starts on integer data: exact initial guess (b=A*x0 exactly) and zero rhs with zero guess must be accepted (Ok), x finite and still a solution. Non-trivial: n>=2 and a judged Ok/degenerate outcome; distinct = distinct (solver,entries,tol) hashes");
